@@ -342,8 +342,12 @@ func (e *env) commitScenario() {
 		if l, ok := s.KLM.Lookup(s.Key(o.d)); ok {
 			blocksSpanned[l.AbsBlock] = true
 		}
-		got, err := asm.GetBytes(e.ctx, s2.BA, o.d)
+		got, err := getRetrying(e.ctx, s2, o.d)
 		e.w.Count("commit_live_objects_checked", 1)
+		if err == errUndecided {
+			e.w.Count("restart_reads_refused_no_free_block", 1)
+			continue
+		}
 		if err != nil {
 			e.c.Violation("localstore:committed-object-lost-after-process-crash", "an object that was served before an undisturbed, completed commit is not readable after a process crash and restart: %v (restored blocks=%d of %d in the state file)", err, s2.Initial, stateBlocks(s))
 			return
@@ -546,8 +550,12 @@ func (e *env) shutdownScenario() {
 			if s2 == nil {
 				return
 			}
-			got, err := asm.GetBytes(e.ctx, s2.BA, x.o.d)
+			got, err := getRetrying(e.ctx, s2, x.o.d)
 			e.w.Count("expected_present_checked", 1)
+			if err == errUndecided {
+				e.w.Count("restart_reads_refused_no_free_block", 1)
+				continue
+			}
 			if err != nil {
 				e.c.Violation(sig, "an acknowledged upload (%s) is not readable after the restart: %v; state file lists %d blocks, %d restored, old/cur/new=%d/%d/%d", x.why, err, stateBlocks(s), s2.Initial, e.cfg.Old, e.cfg.Cur, e.cfg.New)
 				return
@@ -571,3 +579,18 @@ func (e *env) shutdownScenario() {
 		e.w.Distinct(fmt.Sprintf("shutdown|%v|%s|pops=%d", e.cfg, shape.String(), pops))
 	}
 }
+
+// getRetrying reads an object once. UNAVAILABLE means the refresh of an
+// object in an old block found no free block (popped blocks still await their
+// state write, and the restored "new" blocks are full): the attempt may itself
+// have rotated the object's block out, so nothing can be concluded for this
+// object; it is reported as errUndecided.
+func getRetrying(ctx context.Context, s *asm.Store, d digest.Digest) ([]byte, error) {
+	got, err := asm.GetBytes(ctx, s.BA, d)
+	if status.Code(err) == codes.Unavailable {
+		return nil, errUndecided
+	}
+	return got, err
+}
+
+var errUndecided = status.Error(codes.Unavailable, "undecided")
